@@ -71,6 +71,9 @@ type Ctx struct {
 	CallSites int
 	cg        *cgCache
 	Renamed   []string // symbols analysed under their reference names (canon.go)
+	refSyms   map[string]*refPkg
+	curSyms   *curSyms
+	overlay   map[string][]byte
 }
 
 func goEnv() []string {
@@ -189,9 +192,115 @@ func (c *Ctx) Fn(pkgSuffix, name string) *ssa.Function {
 	return p.Func(name)
 }
 
+// FnOrAbsorber is Fn; when the function is gone but the reference tree had it, the function that
+// absorbed it (it was inlined into its caller, or merged with a sibling into a new function): the
+// tightest function of the same package whose body mentions everything the reference body mentioned
+// (callees, package-level objects, most string literals and fields). Rules that look for constructs
+// inside the named function then look inside the absorber. Nothing is returned for a function that was
+// really removed (its calls and checks are nowhere), so the anchor stays missing for those.
+func (c *Ctx) FnOrAbsorber(pkgSuffix, name string) *ssa.Function {
+	if f := c.Fn(pkgSuffix, name); f != nil {
+		return f
+	}
+	if c.refSyms == nil {
+		return nil
+	}
+	path := repoMod + "/" + pkgSuffix
+	if pkgSuffix == "" {
+		path = repoMod
+	}
+	rp := c.refSyms[path]
+	if rp == nil {
+		return nil
+	}
+	rf := rp.Funcs[name]
+	if rf == nil {
+		return nil
+	}
+	var must, soft []string
+	for _, ft := range rf.Feat {
+		switch {
+		case strings.HasPrefix(ft, "c:"), strings.HasPrefix(ft, "g:"):
+			// a callee or global that is itself gone cannot be required
+			must = append(must, ft)
+		default:
+			soft = append(soft, ft)
+		}
+	}
+	if len(must)+len(soft) < 3 || len(must) == 0 {
+		return nil
+	}
+	if c.curSyms == nil {
+		c.curSyms = extractSymbols(c, c.overlay)
+	}
+	cp := c.curSyms.pkgs[path]
+	if cp == nil {
+		return nil
+	}
+	// features that exist nowhere in the package any more are not required (renamed away or removed with
+	// the function itself, e.g. a recursive self-call)
+	everywhere := map[string]bool{}
+	for _, f := range cp.Funcs {
+		for _, ft := range f.Feat {
+			everywhere[ft] = true
+		}
+	}
+	best, bestN := "", 1<<30
+	for k, f := range cp.Funcs {
+		have := map[string]bool{}
+		for _, ft := range f.Feat {
+			have[ft] = true
+		}
+		ok := true
+		nMust := 0
+		for _, ft := range must {
+			if !everywhere[ft] {
+				continue
+			}
+			nMust++
+			if !have[ft] {
+				ok = false
+				break
+			}
+		}
+		if !ok || nMust == 0 {
+			continue
+		}
+		hit := 0
+		for _, ft := range soft {
+			if have[ft] {
+				hit++
+			}
+		}
+		if len(soft) > 0 && hit*5 < len(soft)*4 {
+			continue
+		}
+		if len(f.Feat) < bestN || (len(f.Feat) == bestN && k < best) {
+			best, bestN = k, len(f.Feat)
+		}
+	}
+	if best == "" {
+		return nil
+	}
+	g := c.Fn(pkgSuffix, best)
+	if g != nil {
+		c.noteOnce("anchor " + shortPkg(path) + "." + name + " is gone; its body is found in " + best + " (inlined or merged) — rules anchored at it look there")
+	}
+	return g
+}
+
+func (c *Ctx) noteOnce(s string) {
+	for _, n := range c.Notes {
+		if n == s {
+			return
+		}
+	}
+	c.Notes = append(c.Notes, s)
+}
+
 // MustFn is Fn that records an anchor-missing violation when the symbol is gone.
 func (c *Ctx) MustFn(rule, pkgSuffix, name string) *ssa.Function {
-	f := c.Fn(pkgSuffix, name)
+	f := c.FnOrAbsorber(pkgSuffix, name)
 	if f == nil || f.Blocks == nil {
 		c.Add(rule, "anchor:"+pkgSuffix+"."+name, Violated, "", "reason=anchor-missing: function "+pkgSuffix+"."+name+" not found in the current tree (rule table names it)", false)
 		return nil
